@@ -2,6 +2,7 @@ import VlsModel.Lemmas.Wire
 import VlsModel.Gen.WireSchema
 import VlsModel.Gen.FnMsgs
 import VlsModel.Gen.FnPsbt
+import VlsModel.Gen.BoltDerive
 import VlsModel.Lemmas.FnGen
 /-
 C19 — the frame length check of `vls-protocol/src/msgs.rs` tied to the source by rs2lean.
@@ -197,5 +198,77 @@ example : Gen.FnMsgs.check_message_length 1 = .error (.err "Error::ShortRead")
     ∧ Gen.FnMsgs.check_message_length 131072 = .ok ()
     ∧ Gen.FnMsgs.check_message_length 131073 = .error (.err "Error::MessageTooLarge") := by
   refine ⟨?_, ?_, ?_, ?_⟩ <;> rfl
+
+
+/-! ## bolt-derive/src/lib.rs (round 9): the macro templates as generated step lists (`Gen/BoltDerive.lean`,
+`translate/x_boltderive.py`)
+
+The derive macros are token-stream programs, outside the rs2lean subset; but what they *emit* is short straight-line
+Rust inside `quote!`.  The extractor parses every statement of the `as_vec` / typed `from_vec` templates and of the variant
+walk of `#[derive(ReadMessage)]`; the theorems below prove the model functions equal to the interpretation of what was
+extracted.  (The per-field `Encodable`/`Decodable` derive is not in this crate: it is serde_bolt's
+`bitcoin-consensus-derive`, a registry dependency outside /repo — field order is the struct's declaration order, which
+x_wire.py extracts and the correspondence harness checks for every message type.) -/
+
+/-- **C19_gen_as_vec.** the model's `asVec` is the interpretation of the statements of the `as_vec` template of
+    `#[derive(SerBolt)]` as extracted from bolt-derive/src/lib.rs: `TYPE` as `width` big-endian bytes, then the
+    consensus encoding of the struct -/
+theorem C19_gen_as_vec {α : Type} (L : LeafCodec α) (e : Entry) (v : Val α) :
+    interpS L e v Gen.BoltDerive.asVecSteps {} = some (asVec L e v) := by
+  simp [Gen.BoltDerive.asVecSteps, interpS, asVec]
+
+/-- **C19_gen_from_vec_typed.** the model's typed decoder `fromVecTyped` (what `C19_typed` / `C19_read_message_typed`
+    are about) is the interpretation of the statements of the generated `DeBolt::from_vec`: read the type, compare it with
+    `TYPE`, decode the body from the same cursor, refuse trailing bytes (with the underflowing count: `panic`) -/
+theorem C19_gen_from_vec_typed {α : Type} (L : LeafCodec α) (e : Entry) (bs : Bytes) :
+    interpD L e bs Gen.BoltDerive.fromVecSteps {} = fromVecTyped L e bs := by
+  simp only [Gen.BoltDerive.fromVecSteps, interpD, fromVecTyped]
+  cases h : splitAt? 2 bs with
+  | none => rfl
+  | some p =>
+    obtain ⟨a, body⟩ := p
+    simp only []
+    by_cases ht : beVal a ≠ e.id
+    · simp [ht]
+    · simp only [ht, if_false]
+      cases hd : dec L e.ty body with
+      | none => rfl
+      | some q =>
+        obtain ⟨v, rest⟩ := q
+        simp only []
+        by_cases hr : rest.isEmpty <;> simp [hr]
+
+theorem dispatch_eq_findIdx (reg : List Entry) (id : Nat) :
+    dispatch reg id = reg.findIdx? (fun e => e.id == id) := by
+  induction reg with
+  | nil => rfl
+  | cons e es ih =>
+    simp only [dispatch, List.findIdx?_cons, ih]
+    by_cases h : e.id = id <;> simp [h]
+
+/-- **C19_gen_read_message.** the model's `dispatch` (first entry with the message id, `none` = `Message::Unknown`) is the
+    dispatch that the variant walk of `#[derive(ReadMessage)]` generates, for every list of variants none of which is
+    called `Unknown` (x_wire.py builds the registry from the enum without that variant and fails closed if it is missing) -/
+theorem C19_gen_read_message (reg : List Entry) (id : Nat) (h : ∀ e ∈ reg, (e.name != "Unknown") = true) :
+    dispatchW Gen.BoltDerive.readMessageWalk reg id = dispatch reg id := by
+  have hf : reg.filter (fun e => e.name != "Unknown") = reg := List.filter_eq_self.mpr h
+  simp [dispatchW, Gen.BoltDerive.readMessageWalk, hf, dispatch_eq_findIdx]
+
+/-- the dispatch depends on the order of the arms: with the arms reversed the shadowed id 20 (finding F-C19-1) would
+    select the other struct — the order fact is not vacuous -/
+example : dispatchW { Gen.BoltDerive.readMessageWalk with armsInDeclarationOrder := false }
+      [⟨"A", 20, .unit, false⟩, ⟨"B", 20, .unit, false⟩, ⟨"C", 7, .unit, false⟩] 7 = some 0 ∧
+    dispatchW Gen.BoltDerive.readMessageWalk
+      [⟨"A", 20, .unit, false⟩, ⟨"B", 20, .unit, false⟩, ⟨"C", 7, .unit, false⟩] 7 = some 2 := by
+  constructor <;> simp [dispatchW, Gen.BoltDerive.readMessageWalk, List.findIdx?_cons]
+
+
+/-- **C19_fn_streamed_new.** the sender side of a streamed PSBT (psbt.rs `StreamedPSBT::new`,
+    `PsbtWrapper::from`, regenerated in `Gen/FnPsbt.lean`): a fresh `StreamedPSBT` wraps the PSBT unchanged and carries
+    *no* segwit flags — flags only ever come out of the decoder (`Streamed.decode`, `C19_psbt`), never from the sender -/
+theorem C19_fn_streamed_new (p : Gen.FnPsbt.Psbt) :
+    (Gen.FnPsbt.StreamedPSBT.new p).psbt.inner = p ∧
+    (Gen.FnPsbt.StreamedPSBT.new p).segwit_flags = ([] : List Bool) ∧
+    (Gen.FnPsbt.PsbtWrapper.from p).inner = p := ⟨rfl, rfl, rfl⟩
 
 end VlsModel.Props.C19Fn
